@@ -61,3 +61,31 @@ contract(
     ensures={"a-list-of-strings-is-one-argument-per-element-in-order-each-untouched": "len(result) == len(x) and forall(lambda j: result[j] == x[j], 0, len(x))"},
     from_property="a value injected with @(expr) arrives verbatim, one argument per string or element, never re-split, globbed or expanded",
 )
+
+
+# ---- weaving @() lists into the command: every element contributes its strings in order, nothing is re-split or merged ----------------
+SPX = "xonsh/procs/specs.py::"
+REDIR_IN = Tuple(Str, Seq(Str))           # ('>', ['file'])   as the parser leaves it
+REDIR_OUT = Tuple(Str, Str)               # ('>', 'file')
+ARG_IN = Union(Str, Seq(Str), REDIR_IN)   # a word, the strings of an @() list, a redirect
+ARG_OUT = Union(Str, REDIR_OUT, REDIR_IN)
+FLAT_EXT = {"woven": Ext(ret=Seq(ARG_OUT), pure=True, uf="woven", args=[Seq(ARG_IN)], note="ghost: the weave, DEFINED by the two axioms below")}
+C0 = "old(self.cmd)"
+FLAT_AXIOMS = {
+    "weave-of-nothing": "len(woven(%s[:0])) == 0" % C0,
+    "a-word-adds-exactly-itself": "forall(lambda k: implies(isinstance(%(C)s[k], str), woven(%(C)s[:k + 1]) == woven(%(C)s[:k]) + [narrow(%(C)s[k])]), 0, len(%(C)s))" % dict(C=C0),
+    "an-injected-list-adds-its-strings-in-order-each-as-one-argument": "forall(lambda k: implies(isinstance(%(C)s[k], list), woven(%(C)s[:k + 1]) == woven(%(C)s[:k]) + narrow(%(C)s[k])), 0, len(%(C)s))" % dict(C=C0),
+    "a-redirect-with-one-target-adds-the-pair-operator-target":
+        "forall(lambda k: implies(isinstance(%(C)s[k], tuple) and len(%(C)s[k][1]) == 1, woven(%(C)s[:k + 1]) == woven(%(C)s[:k]) + [(narrow(%(C)s[k])[0], narrow(%(C)s[k])[1][0])]), 0, len(%(C)s))" % dict(C=C0),
+    "any-other-redirect-shape-is-passed-on-as-it-is (rejected later)":
+        "forall(lambda k: implies(isinstance(%(C)s[k], tuple) and len(%(C)s[k][1]) != 1, woven(%(C)s[:k + 1]) == woven(%(C)s[:k]) + [narrow(%(C)s[k])]), 0, len(%(C)s))" % dict(C=C0),
+}
+contract(
+    SPX + "SubprocSpec.resolve_args_list", "C04", params=dict(self=Obj("SubprocSpec", cmd=List(ARG_IN))), locals={"resolved_cmd": List(ARG_OUT)},
+    config={"isinstance": {"str": ["str"], "list": ["seq"], "tuple": ["tuple"]}, "injseq_fn": True}, externals=FLAT_EXT, axioms=FLAT_AXIOMS,
+    modifies=["self.cmd"],
+    loops={"for#1": dict(invariant={"woven-so-far": "resolved_cmd == woven(%s[:_i])" % C0}, havoc_only=["resolved_cmd"])},
+    ensures={"the-command-is-the-weave-of-its-elements-in-order-nothing-re-split-merged-dropped-or-added": "self.cmd == woven(%s)" % C0},
+    from_property="a value injected with @(expr) arrives verbatim, one argument per string or element, never re-split (the weave is defined by four axioms: a word adds itself, "
+                  "an injected list adds its strings in order, a redirect adds its (operator, target) pair)",
+)
